@@ -10,6 +10,7 @@ import (
 	"astverif/itersafe"
 	"astverif/layout"
 	"astverif/lin"
+	"astverif/load"
 	"astverif/pathint"
 	"astverif/ssau"
 
@@ -1044,4 +1045,140 @@ func (fr *fillRun) judge(st *fstate, call *ssa.Call) {
 		return
 	}
 	fr.bad = append(fr.bad, fmt.Sprintf("[%s] the packet holds %s = %s bytes, writePacket's target is %s (difference %s): writePacket pads 0xFF after the payload or rejects the packet", path, what, total.String(), target.f.String(), d.String()))
+}
+
+// muxerBuffersStartEmpty (rule B1): every bytes.Buffer field of the Muxer that a BitsWriter writes into is emptied before it
+// is written in a method — a Reset() of that very field dominates every use of a writer linked to it. Content left behind by
+// a call that failed (the underlying writer refused it) would otherwise be emitted in front of the next call's packet: more
+// bytes than reported, and not what the caller passed.
+func muxerBuffersStartEmpty(c *Ctx) {
+	r := c.R
+	const rule = "B1"
+	// writer links: NewBitsWriter(opts{Writer: &m.F}) → result (and the Muxer field it is stored into)
+	type link struct {
+		call *ssa.Call
+		buf  string
+	}
+	var links []link
+	fieldWriter := map[string]string{} // Muxer writer field -> buffer field
+	isMuxerPtr := func(v ssa.Value) bool {
+		pt, ok := v.Type().Underlying().(*types.Pointer)
+		if !ok {
+			return false
+		}
+		nm, ok := pt.Elem().(*types.Named)
+		return ok && nm.Obj().Name() == "Muxer"
+	}
+	for _, f := range c.P.SrcFuncs() {
+		for _, b := range f.Blocks {
+			for _, in := range b.Instrs {
+				call, ok := in.(*ssa.Call)
+				if !ok || call.Call.StaticCallee() == nil || call.Call.StaticCallee().Name() != "NewBitsWriter" || len(call.Call.Args) != 1 {
+					continue
+				}
+				optsLoad, ok := call.Call.Args[0].(*ssa.UnOp)
+				if !ok || optsLoad.X.Referrers() == nil {
+					continue
+				}
+				for _, ref := range *optsLoad.X.Referrers() {
+					wfa, ok := ref.(*ssa.FieldAddr)
+					if !ok {
+						continue
+					}
+					if wn, _ := ssau.FieldName(wfa); wn != "Writer" || wfa.Referrers() == nil {
+						continue
+					}
+					for _, r2 := range *wfa.Referrers() {
+						s2, ok := r2.(*ssa.Store)
+						if !ok {
+							continue
+						}
+						mi, ok := s2.Val.(*ssa.MakeInterface)
+						if !ok {
+							continue
+						}
+						bfa, ok := mi.X.(*ssa.FieldAddr)
+						if !ok || !isMuxerPtr(bfa.X) {
+							continue
+						}
+						bn, _ := ssau.FieldName(bfa)
+						links = append(links, link{call, bn})
+						if call.Referrers() != nil {
+							for _, r3 := range *call.Referrers() {
+								if s3, ok := r3.(*ssa.Store); ok && s3.Val == ssa.Value(call) {
+									if tfa, ok := s3.Addr.(*ssa.FieldAddr); ok && isMuxerPtr(tfa.X) {
+										tn, _ := ssau.FieldName(tfa)
+										fieldWriter[tn] = bn
+									}
+								}
+							}
+						}
+					}
+				}
+			}
+		}
+	}
+	if len(links) == 0 {
+		r.Unknown(rule, "links", "", "no BitsWriter over a Muxer buffer field found")
+		return
+	}
+	resetDominates := func(f *ssa.Function, buf string, use ssa.Instruction) bool {
+		for _, b := range f.Blocks {
+			for _, in := range b.Instrs {
+				call, ok := in.(*ssa.Call)
+				if !ok || call.Call.StaticCallee() == nil || call.Call.StaticCallee().Name() != "Reset" || len(call.Call.Args) != 1 {
+					continue
+				}
+				fa, ok := call.Call.Args[0].(*ssa.FieldAddr)
+				if !ok || !isMuxerPtr(fa.X) {
+					continue
+				}
+				if n, _ := ssau.FieldName(fa); n != buf {
+					continue
+				}
+				if (call.Block() == use.Block() && ssau.InstrBefore(call, use)) || (call.Block() != use.Block() && call.Block().Dominates(use.Block())) {
+					return true
+				}
+			}
+		}
+		return false
+	}
+	n := 0
+	for _, f := range c.P.SrcFuncs() {
+		if f.Signature.Recv() == nil || !isMuxerPtr(f.Params[0]) {
+			continue
+		}
+		for _, b := range f.Blocks {
+			for _, in := range b.Instrs {
+				ci, ok := in.(ssa.CallInstruction)
+				if !ok {
+					continue
+				}
+				for _, arg := range ci.Common().Args {
+					buf := ""
+					if ld, ok := arg.(*ssa.UnOp); ok && ld.Op == token.MUL {
+						if fa, ok := ld.X.(*ssa.FieldAddr); ok && isMuxerPtr(fa.X) {
+							if fn, _ := ssau.FieldName(fa); fieldWriter[fn] != "" {
+								buf = fieldWriter[fn]
+							}
+						}
+					}
+					for _, l := range links {
+						if arg == ssa.Value(l.call) {
+							buf = l.buf
+						}
+					}
+					if buf == "" {
+						continue
+					}
+					n++
+					key := fmt.Sprintf("%s/writes-into[%s]#%d", load.FuncName(f), buf, n)
+					r.Check(resetDominates(f, buf, in), rule, key, c.P.Pos(in.Pos()),
+						"m."+buf+".Reset() dominates this write into the buffer: nothing of an earlier call is in front of it",
+						"m."+buf+" is written without being emptied first in "+load.FuncName(f)+": what an earlier call left there (its writer failed, or it returned early) is emitted in front of this call's bytes")
+				}
+			}
+		}
+	}
+	r.Floor(rule, "writes into Muxer buffers through linked BitsWriters", n, 4)
 }
